@@ -401,6 +401,10 @@ CLONE_CONTAINERS = ["states", "qstates", "controls", "algebraics", "parameters",
 CLONE_MUST_SUBSTITUTE = ["_state_der", "_state_next", "_alg", "_constraints", "_objective", "_initial", "_placeholders", "_initial.values"]
 # containers of containers: a shallow copy would share the inner lists between template and clones
 CLONE_MUST_DEEPCOPY = ["parameters", "variables", "_method"]
+# tables an instance writes to through its own set_value / set_der(scale=) / set_initial: sharing them by reference would make the
+# instances of one template (and the template) overwrite each other
+CLONE_MUST_NOT_SHARE = ["_param_vals", "_scale_der", "_initial", "_state_der", "_state_next", "_alg", "_constraints", "_offsets",
+                        "states", "qstates", "controls", "algebraics"]
 
 
 def clonetable():
@@ -503,7 +507,9 @@ def clonetable():
     L += ["]", "", "/-- containers whose expressions may mention the template's time placeholders -/",
           "def cloneMustSubstitute : List String := " + lean_str_list(CLONE_MUST_SUBSTITUTE), "",
           "/-- containers of containers (a shallow copy shares the inner lists with the template) -/",
-          "def cloneMustDeepcopy : List String := " + lean_str_list(CLONE_MUST_DEEPCOPY), "", "end Rockit.Generated", ""]
+          "def cloneMustDeepcopy : List String := " + lean_str_list(CLONE_MUST_DEEPCOPY), "",
+          "/-- tables and lists an instance writes to (set_value, set_der(scale=), set_initial, subject_to, state(), …): never shared by reference -/",
+          "def cloneMustNotShare : List String := " + lean_str_list(CLONE_MUST_NOT_SHARE), "", "end Rockit.Generated", ""]
     path = os.path.join(OUT, "Clone.lean")
     new_src = "\n".join(L)
     if not os.path.exists(path) or open(path).read() != new_src:
@@ -513,6 +519,8 @@ def clonetable():
 
 def clone_requirement_ok(name, kind, sub):
     if kind == "missing":
+        return False
+    if name in CLONE_MUST_NOT_SHARE and kind == "shared":
         return False
     if name in CLONE_MUST_SUBSTITUTE and not sub:
         return False
